@@ -28,7 +28,7 @@ pub fn scenarios() -> Vec<Scenario> {
         Scenario::new(
             "C06",
             "bundled-examples",
-            "the bundled examples proved by the serial build (reference digests) and by the concurrent build on the simulated scheduler (lamport examples fill their traces from parallel fragments): context, commitments, OOD frame equal; whole proof when the nonce is equal",
+            "the deterministic bundled examples (fib2, fib8, mulfib2, mulfib8, fib_small, vdf, vdf-exempt, rescue) proved by the serial build (reference digests) and by the concurrent build on the simulated scheduler: context, commitments, OOD frame equal; whole proof when the nonce is equal",
             run_c06_examples,
             200,
             15_000,
@@ -222,6 +222,13 @@ fn run_c06_examples() -> Outcome {
     stats::sig(key);
     stats::nontrivial();
     stats::sample(|| format!("{{\"example\":\"{}\"}}", case.args[1..].join(" ")));
+    // rescue-raps, merkle and the lamport examples draw their inputs from a real random source
+    // every time they are constructed: two constructions are two different instances, so they
+    // cannot be compared across builds (they are still proved and verified under C01)
+    if case.kind >= 8 {
+        stats::count("steps.randomised_example_skipped", 1);
+        return Ok(());
+    }
     let Some(ex) = build(&case) else { return Ok(()) };
     let variants = if cfg!(feature = "concurrent") { 2 } else { 1 };
     for variant in 0..variants {
@@ -239,12 +246,12 @@ fn run_c06_examples() -> Outcome {
             proof.pow_nonce,
             fnv(&proof.to_bytes()),
         ];
-        #[cfg(not(feature = "concurrent"))]
+        #[cfg(not(any(feature = "concurrent", feature = "real-rayon")))]
         {
             let _ = (variant, threads);
             stats::emit(format!("{key:x} {:x} {:x} {:x} {:x} {:x}", d[0], d[1], d[2], d[3], d[4]));
         }
-        #[cfg(feature = "concurrent")]
+        #[cfg(any(feature = "concurrent", feature = "real-rayon"))]
         {
             let Some(want) = reference(key) else { return Ok(()) };
             let what = format!("concurrent variant {variant} threads={threads} :: {}", case.args[1..].join(" "));
@@ -257,7 +264,7 @@ fn run_c06_examples() -> Outcome {
                 if d[4] != want[4] {
                     fail!("proof-bytes-differ-although-nonce-is-equal", KINDS[case.kind], "{what}");
                 }
-            } else if variant == 0 {
+            } else if variant == 0 && cfg!(feature = "concurrent") {
                 fail!("nonce-differs-although-search-was-in-order", KINDS[case.kind], "{what}");
             }
             stats::count("steps.proofs_compared_with_serial", 1);
